@@ -54,5 +54,11 @@ TEXT = {
   "note": "Trusted: Lean kernel; mutex = atomic step (runtime assumed); extractor's lock-discipline fact; model of the loader's path resolution.",
   "technique": "Lean 4 state-machine theorems over all interleavings of atomic steps + regenerated lock facts + history differential + race-detector runs",
  },
+ "C14": {
+  "text": "Theorems in Lean 4 on the model's writer discipline: a buffered run hands the caller exactly the bytes of the inner run on success (buffered_ok) and leaves the caller's buffer untouched on failure, passing the error on (buffered_err); hence ExecuteWriter is all-or-nothing (writer_all_or_nothing), the buffered and unbuffered variants deliver the same bytes (variants_agree) and fail in exactly the same cases (variants_fail_alike), for every template, context and fuel. Fault injection on the implementation: every output position of generated programs can be made to fail; the four entry points are compared (bytes, error class), ExecuteWriter must have written nothing, the unbuffered variant a prefix of the fault-free output, and a failing caller's writer must surface as ExecuteWriter's error.",
+  "ref": "DESIGN.md §6 C14",
+  "note": "Trusted: Lean kernel; model of the writer plumbing; the unbuffered-prefix clause is checked by fault injection only.",
+  "technique": "Lean 4 theorems on the buffering combinator of the executable model + fault-injection differential over the four entry points",
+ },
 }
 PENDING = {}
